@@ -378,6 +378,34 @@ fn measure_cost(out: &mut Out, rng: &mut Rng, op: u8, b2: Option<u8>, base: u8, 
         }
     };
     keep_running(&mut s.m);
+    // the same boundary with other contents of the microprogram's scratch registers (what earlier instructions
+    // happened to leave there): the cost must not depend on them
+    let mut twin = s.m.clone();
+    {
+        use emulator_2a_lib::machine::RegisterNumber as RN;
+        let (a, b) = (*twin.registers().get(RN::R6), *twin.registers().get(RN::R7));
+        let pick = |rng: &mut Rng, old: u8| -> u8 {
+            let v = match rng.below(4) { 0 => 0xF5, 1 => 0x10, 2 => 0xEF, _ => rng.byte() };
+            if v == old { v ^ 0xFF } else { v }
+        };
+        twin.raw_mut().registers_mut().set(RN::R6, pick(rng, a));
+        twin.raw_mut().registers_mut().set(RN::R7, pick(rng, b));
+    }
+    let twin_edges = {
+        let mut e = 0u32;
+        let mut done = false;
+        while e < 5000 {
+            let waiting = twin.verif_state().pending_wait_for_memory;
+            twin.raw_mut().trigger_clock_edge();
+            keep_running(&mut twin);
+            e += 1;
+            if !waiting && twin.is_instruction_done() {
+                done = true;
+                break;
+            }
+        }
+        if done { Some(e) } else { None }
+    };
     let mut ram = access_is_ram(&s.m) as u32; // the fetch that produced B0
     let mut steps = 0u32;
     let mut edges = 0u32;
@@ -407,6 +435,10 @@ fn measure_cost(out: &mut Out, rng: &mut Rng, op: u8, b2: Option<u8>, base: u8, 
     out.emit(
         &format!("{} {} {} {} {}", if with_int { "spec.costint" } else { "spec.cost" }, op, b2s, steps, ram),
         &format!("edges={} steps={}", edges, steps),
+    );
+    out.emit(
+        &format!("spec.costscratch {} {}", op, b2s),
+        &(if twin_edges == Some(edges) { "same".to_string() } else { format!("differs {} vs {:?}", edges, twin_edges) }),
     );
     out.distinct_case(&format!("{} {} {:?} {}", op, b2s, regs, base));
     out.count(if io_bias { "io-biased" } else { "ram" });
